@@ -677,6 +677,9 @@ func c04HistoryOps() []c04HOp {
 		ops = append(ops, c04HOp{Kind: "value", Type: ti})
 	}
 	ops = append(ops, c04HOp{Kind: "invoke", Type: 5}, c04HOp{Kind: "invoke", Type: 6})
+	// invocations that resolve concrete types (what an invocation fetched from an outer scope is no registration
+	// of the scope it ran in)
+	ops = append(ops, c04HOp{Kind: "invoke", Type: 1}, c04HOp{Kind: "invoke", Type: 2})
 	// SetParent: scope, and the new parent in Type (0..2 = that injector, 3 = none, 4 = injector 1
 	// behind a wrapper type that is not the plain injector)
 	ops = append(ops, c04HOp{Kind: "parent", Scope: 0, Type: 1}, c04HOp{Kind: "parent", Scope: 0, Type: 2}, c04HOp{Kind: "parent", Scope: 0, Type: 3},
